@@ -135,6 +135,18 @@ def services_ir(pkg="com.palantir.svc", set_double_query=True):
     eps.append(ir.endpoint("safeArgs", "POST", "/safe/{p}", [ir.arg("p", P("STRING"), "path", safety="safe"), ir.arg("q", P("STRING"), "query", "q", markers=[ir.SAFE_MARKER]),
                                                            ir.arg("h", P("STRING"), "header", "H", tags=["safe"]), ir.arg("u", P("STRING"), "query", "u", safety="unsafe"),
                                                            ir.arg("d", P("BEARERTOKEN"), "header", "D", safety="dnl"), ir.arg("body", R("Obj"), "body")]))
+    # every endpoint shape again with the request-context tag (an extra trait argument that borrows the response extensions)
+    ctx = ["server-request-context"]
+    eps.append(ir.endpoint("ctxPlain", "GET", "/ctx/plain", [], returns=P("STRING"), tags=ctx))
+    eps.append(ir.endpoint("ctxSafeArgs", "POST", "/ctx/safe/{p}", [ir.arg("p", P("STRING"), "path", safety="safe"), ir.arg("q", ir.optional(P("INTEGER")), "query", "q", safety="safe"),
+                                                                   ir.arg("h", P("STRING"), "header", "H", tags=["safe"]), ir.arg("u", P("STRING"), "query", "u"),
+                                                                   ir.arg("body", R("En"), "body")], returns=ir.list_(R("Obj")), tags=ctx))
+    eps.append(ir.endpoint("ctxSafeBody", "POST", "/ctx/safebody", [ir.arg("body", ir.optional(R("En")), "body", safety="safe")], tags=ctx))
+    eps.append(ir.endpoint("ctxAuth", "PUT", "/ctx/auth/{id}", [ir.arg("id", P("RID"), "path", markers=[ir.SAFE_MARKER]), ir.arg("body", P("BINARY"), "body")],
+                           returns=ir.optional(P("BINARY")), auth="header", tags=ctx))
+    eps.append(ir.endpoint("ctxCookieLimited", "POST", "/ctx/cookie", [ir.arg("body", R("Obj"), "body")], returns=P("BINARY"), auth="PALANTIR_TOKEN",
+                           tags=ctx + ["server-limit-request-size: 1 MiB"]))
+    eps.append(ir.endpoint("ctxUnsafeOnly", "GET", "/ctx/unsafe", [ir.arg("a", ir.set_(P("STRING")), "query", "a"), ir.arg("b", ir.optional(P("UUID")), "header", "B")], tags=ctx))
     eps.append(ir.endpoint("regexPath", "GET", "/files/{path:.+}", [ir.arg("path", P("STRING"), "path")], returns=P("STRING")))
     dep = ir.endpoint("deprecatedEndpoint", "GET", "/dep", [], returns=P("STRING"))
     dep["deprecated"] = "use something else"
